@@ -62,7 +62,7 @@ def gen_cases(rng, tier):
     model, k = spec.exact_boundary_model(rng, "LAMMPS", v, shared=route.startswith("api"))
     cases.append({"route": route, "model": model, "style": rng.randrange(1 << 30), "exact_boundary": v, "root_on_grid": k})
   # row-count sweep (everything small, m*10^k, 2^k, multiples of 5000, each with neighbours): structure and end values
-  szs = spec.edge_sizes(tier, multiple_of=1, lo=3)
+  szs = spec.edge_sizes(tier, multiple_of=1, lo=2)   # nr = 2: a table of ONE row, at r = cutoff
   for c0 in range(0, len(szs), 12):
     cases.append({"kind": "sizes", "sizes": szs[c0:c0 + 12], "route": "api_legacy", "model": None, "style": 0})
   return cases
